@@ -387,6 +387,50 @@ void h_leakage_samples(void)
 }
 
 /*
+ * C11 / C20: a refused standard adds NOTHING - also no unknown parameter.
+ * vnacal_new_add_double_reflect_m(u, bad): the first reflection parameter is
+ * a valid unknown, the second handle is invalid.  The call must fail with one
+ * usage report and leave the number of unknown parameters (which the
+ * "enough equations" tests of the solvers count) as it was.
+ */
+void h_refused_unknown(void)
+{
+    IN_ARR(double, mv, 4);
+    double f[1] = { 1.0e9 };
+    double complex c[4];
+    double complex *m[4] = { &c[0], &c[1], &c[2], &c[3] };
+    vnacal_t *vcp;
+    vnacal_new_t *vnp;
+    int u, rc, eq0, unk0;
+
+    for (int i = 0; i < 4; ++i)
+	c[i] = mv[i];
+    ghost_err_reset();
+    vcp = vnacal_create(verif_error_fn, NULL);
+    ASSUME(vcp != NULL);
+    u = vnacal_make_unknown_parameter(vcp, VNACAL_SHORT);
+    ASSUME(u == 3);
+    vnp = vnacal_new_alloc(vcp, CAL_TYPE, 2, 2, 1);
+    ASSUME(vnp != NULL);
+    ASSUME(vnacal_new_set_frequency_vector(vnp, f) == 0);
+    eq0 = vnp->vn_equations;
+    unk0 = vnp->vn_unknown_parameters;
+    CHECK(ghost_err_calls == 0 && unk0 == 0, "set-up is silent, no unknown parameter yet");
+
+    rc = vnacal_new_add_double_reflect_m(vnp, m, 2, 2, u, 7 /* no such parameter */, 1, 2);
+    REACH("refused double reflect returned");
+    CHECK(rc == -1 && ghost_err_calls == 1 && ghost_err_category == VNAERR_USAGE && errno == EINVAL,
+	    "an invalid second handle is refused once with EINVAL");
+    CHECK(wf_counts(vnp) && vnp->vn_equations == eq0 && vnp->vn_measurement_count == 0,
+	    "the refused standard adds no equation and no standard");
+    CHECK(vnp->vn_unknown_parameters == unk0 && vnp->vn_unknown_parameter_list == NULL,
+	    "the refused standard adds no unknown parameter");
+    vnacal_new_free(vnp);
+    (void)vnacal_delete_parameter(vcp, u);
+    vnacal_free(vcp);
+}
+
+/*
  * The TRL short-cut test (_vnacal_new_solve_is_trl / classify_standard) runs
  * at every solve of a 2x2 T8/U8/TE10/UE10 calibration with exactly three
  * standards and two unknown parameters - e.g. in the "solve after each
